@@ -37,7 +37,7 @@ __asan_memcpy __asan_memmove __asan_memset qsort lfind bsearch
 strtok rand srand localeconv gmtime localtime ctime asctime getenv setenv putenv
 hcreate hdestroy hsearch drand48 lrand48 mrand48 srand48 random srandom lgamma lgammaf gamma ecvt fcvt
 pthread_mutex_lock pthread_mutex_unlock pthread_mutex_trylock pthread_mutex_init pthread_mutex_destroy
-pthread_once call_once mtx_init mtx_destroy mtx_lock mtx_trylock mtx_unlock
+pthread_once call_once pthread_key_create pthread_key_delete pthread_setspecific pthread_getspecific tss_create tss_delete tss_set tss_get mtx_init mtx_destroy mtx_lock mtx_trylock mtx_unlock
 pthread_spin_init pthread_spin_destroy pthread_spin_lock pthread_spin_trylock pthread_spin_unlock
 pthread_rwlock_init pthread_rwlock_destroy pthread_rwlock_rdlock pthread_rwlock_tryrdlock pthread_rwlock_wrlock pthread_rwlock_trywrlock pthread_rwlock_unlock
 pthread_cond_init pthread_cond_destroy pthread_cond_wait pthread_cond_timedwait pthread_cond_signal pthread_cond_broadcast
